@@ -32,7 +32,8 @@ THEOREMS = {n: "Props.C11" for n in [
     "C11_avg_order_irrelevant_Qc", "C11_avg_repeated_seed_ignored", "C11_avg_state_function_of_data",
     "C11_l1d_partial", "C11_l1d_batch_partial", "C11_l1d_partial_Qc",
     "C11_l1d_losses_order_irrelevant", "C11_l1d_losses_order_irrelevant_Qc",
-    "C11_l1d_losses_function_of_data", "C11_l1d_function_of_data_example"]}
+    "C11_l1d_losses_function_of_data", "C11_l1d_function_of_data_example",
+    "C11_l1d_losses_function_of_data_vec", "C11_l1d_function_of_data_vec_example"]}
 
 RTOL = 1e-12            # "to rounding" for interpolated pieces / float sums
 ASK_NS = list(range(1, 11))
